@@ -1,7 +1,7 @@
 (* C18: what the harness evaluates on observed behaviour (vm_compute). *)
 From Coq Require Import NArith List String Bool. Import ListNotations.
 From TP Require Import Base.PyVal Base.PyEq Base.PyOps Errors.Template Errors.Render Errors.Parse Errors.TemplateOk
-  Errors.Collect Errors.Guard Errors.GuardSchema Gen.Templates Gen.GuardProgs.
+  Errors.Collect Errors.Guard Errors.GuardSchema Errors.Switch Gen.Templates Gen.GuardProgs Gen.SwitchSites.
 Local Open Scope list_scope.
 
 Definition opt_str_eqb (a b : option pystr) : bool :=
@@ -178,4 +178,19 @@ Definition ctor_only_unlisted (tid : N) : bool :=
   | Some t => negb (is_ctor_only_site t)
   | None => true
   end.
+
+(* ---------------------------------------------------------------- switch stream *)
+(* a history of set_fail_fast / failing_fast calls made by several real threads, with the answers observed *)
+Record scase := { sc_evs : list event; sc_obs : list (option bool) }.
+
+Definition ob_eqb (a b : option bool) : bool :=
+  match a, b with Some x, Some y => Bool.eqb x y | None, None => true | _, _ => false end.
+
+(* the cells the generated setter / getter use explain the observed answers *)
+Definition switch_mismatch (c : scase) : bool :=
+  negb (list_eqb ob_eqb (run_switch switch_write switch_read (init_store switch_init) (sc_evs c)) (sc_obs c)).
+
+(* the observed answers are not those of ONE process-wide switch: the clause on the implementation *)
+Definition switch_not_process_wide (c : scase) : bool :=
+  negb (list_eqb ob_eqb (spec_switch true (sc_evs c)) (sc_obs c)).
 
